@@ -200,7 +200,7 @@ def check_case(env, case, configs, reps, pool, model_seeds=2):
         d, kind = G.phrase_verdict(case, ref, env.drv, vp, mp, pfx)
         if d is not None:
             ctx.violation("phrase mode threads:1: " + d, {"cmd": cmd1, "model": case["model"].decode("latin-1"),
-                                                            "vocab": case["vocab"].decode("latin-1")}, no_input=(kind == "machinery"))
+                                                            "vocab": case["vocab"].decode("latin-1")}, no_input=(kind != "tool"))
             return True
         return grid(env, case, configs, reps, pool, ref, multiple) or bad
     info = env.drv.job("fixed", case["mode"], case["context"], case["fmt"], 1, 1, 0, vp, mp, pfx)
